@@ -145,9 +145,8 @@ def run(prop, tier="quick", replay=None, repo=None, quiet=False, write_evidence=
         return 3, [], None
 
     extra_cfg = []
-    if tier == "thorough" and hasattr(mod, "thorough"):
-        mod.thorough(ctx, say)
-        extra_cfg = getattr(ctx, "extra_configs", [])
+    if tier == "thorough" and repo is None:
+        extra_cfg = thorough(prop, mod, ctx, say)
 
     known = load_known()
     known_keys = {}
@@ -248,3 +247,97 @@ def run(prop, tier="quick", replay=None, repo=None, quiet=False, write_evidence=
         if write_evidence and os.path.exists(rp):
             os.remove(rp)
     return code, new, ev
+
+
+def thorough(prop, mod, ctx, say):
+    """thorough tier (DESIGN §4.1): (a) re-evaluate the rules on the facts of the other build configurations;
+    (b) checker self-validation: every seeded mutant of this property must be reported, every benign refactoring
+    must stay silent. A failed self-validation is CHECKER-SELFTEST-FAILED, never a VIOLATION."""
+    import glob
+    import subprocess
+    extra = []
+    base_keys = sorted(set(f.key for f in ctx.findings))
+    # (a) other configurations
+    cfgs = ["all-targets"] + (["packets-server", "packets-client"] if prop == "C09" else [])
+    cfg_report = {}
+    for cfg in cfgs:
+        d, h, info = extract.ensure_facts(cfg)
+        if info.get("returncode", 0) != 0:
+            cfg_report[cfg] = "not buildable: " + info.get("error", "")[-200:]
+            continue
+        prog2 = ir.Program(d)
+        c2 = Ctx(prop, prog2, "thorough", cfg)
+        try:
+            mod.check(c2)
+            keys2 = sorted(set(f.key for f in c2.findings))
+            st2 = prog2.stats()
+            cfg_report[cfg] = {"bodies": st2["bodies"], "obligations": len(c2.obligations), "findings": keys2}
+            if cfg == "all-targets":
+                for k in keys2:
+                    if k not in base_keys:
+                        f = [x for x in c2.findings if x.key == k][0]
+                        f.key = k
+                        ctx.findings.append(f)
+                        ctx.obligations.append({"rule": f.rule, "key": k + "@all-targets", "ok": False, "site": f.site, "detail": f.reason})
+        except Exception as e:
+            cfg_report[cfg] = "checker error: %s" % e
+            ctx.selftest_failed = True
+        extra.append(cfg)
+    say("%s thorough: configurations %s" % (prop, json.dumps({k: (v if isinstance(v, str) else {"obligations": v["obligations"], "findings": len(v["findings"])}) for k, v in cfg_report.items()})))
+    # (b) self-validation
+    sys.path.insert(0, os.path.join(VERIF, "tools"))
+    import mutant
+    muts = sorted(glob.glob(os.path.join(VERIF, "selftest", prop, "m*.diff")))
+    seeds = []
+    for d in sorted(glob.glob(os.path.join(VERIF, "seeded", "*"))):
+        try:
+            meta = json.load(open(os.path.join(d, "meta.json")))
+        except Exception:
+            continue
+        if meta.get("property") == prop:
+            seeds.append(os.path.join(d, "patch.diff"))
+    benign = sorted(glob.glob(os.path.join(VERIF, "selftest", prop, "b*.diff"))) + sorted(glob.glob(os.path.join(VERIF, "selftest", "benign", "b*.diff")))
+    res = {"mutants": {}, "benign": {}, "stale": []}
+    failed = []
+    for p in muts + seeds:
+        name = os.path.relpath(p, VERIF)
+        try:
+            r = mutant.run_on_patch(p, [prop])
+        except SystemExit as e:
+            res["stale"].append(name)
+            continue
+        code, keys, _ = r[prop]
+        if code == 2:
+            res["stale"].append(name)
+            continue
+        res["mutants"][name] = keys[:4]
+        if code != 1 or not keys:
+            failed.append("mutant not reported: " + name)
+    for p in benign:
+        name = os.path.relpath(p, VERIF)
+        try:
+            r = mutant.run_on_patch(p, [prop])
+        except SystemExit:
+            res["stale"].append(name)
+            continue
+        code, keys, _ = r[prop]
+        if code == 2:
+            res["stale"].append(name)
+            continue
+        res["benign"][name] = keys[:4]
+        if code != 0:
+            failed.append("benign refactoring raised an alarm: %s %s" % (name, keys[:3]))
+    res["mutants_caught"] = sum(1 for v in res["mutants"].values() if v)
+    res["mutants_total"] = len(res["mutants"])
+    res["benign_silent"] = sum(1 for v in res["benign"].values() if not v)
+    res["benign_total"] = len(res["benign"])
+    res["configs"] = cfg_report
+    res["failed"] = failed
+    ctx.selftest = res
+    say("%s thorough: self-validation mutants %d/%d reported, benign %d/%d silent, stale %d" % (
+        prop, res["mutants_caught"], res["mutants_total"], res["benign_silent"], res["benign_total"], len(res["stale"])))
+    for f in failed:
+        say("  SELFTEST: " + f)
+    if failed:
+        ctx.selftest_failed = True
+    return extra
